@@ -387,6 +387,10 @@ def classify(tag, row, info):
     return "-", []
 
 
+def _k_matches(ctx, key):
+    return any(k.get("property") == ctx.prop and k.get("status") == "open" and lib._key_match(k.get("key"), key) for k in ctx.known())
+
+
 def sched_key(s):
     return json.dumps(s, sort_keys=True)
 
@@ -555,6 +559,10 @@ def run(ctx):
             what = "%s violated (%s %s): %s; operation %s vars=%s nulls=%s schedule=%s realised order=%s" % (
                 tag, sub, detail, EXPLAIN.get(tag, ""), c["query"], c["vars"] or "{}", c["nulls"], json.dumps(sch), row["order"])
             rejected_runs[tag + "|" + sub] = rejected_runs.get(tag + "|" + sub, 0) + 1
+            if len(ctx.violations) >= 40:
+                # enough replay files; the remaining rejected runs are counted in runs_rejected_by_class
+                if not _k_matches(ctx, key):
+                    continue
             ctx.violation(key, what, {"case": c, "generator_state": st_by_id[row["case"]], "schedule": sch, "realised_order": row["order"],
                                       "frames": row["frames"], "reference": info.get("ref"), "ifFalse": info.get("ifFalse"),
                                       "exchanges": info.get("exchanges"), "descriptors": info.get("descs"), "tree": info.get("tree"),
@@ -563,7 +571,7 @@ def run(ctx):
             samples.append({"operation": c["query"], "nulls": c["nulls"], "schedule": sch, "realised_order": row["order"],
                             "frames": row["frames"], "verdict": v})
     # reference executions that failed outright (engine error on a generated operation) are generator problems
-    bad_ref = [i for i, info in caseinfo.items() if info["refErr"] or info["ifFalseErr"] or info["refFrames"] != 1]
+    bad_ref = [i for i, info in caseinfo.items() if info["refErr"] or info["ifFalseErr"] or info["refFrames"] != 1 or info["ifFalseFrames"] != 1]
     if bad_ref:
         info = caseinfo[bad_ref[0]]
         ctx.notes.append("%d generated operations were rejected by the engine without @defer (e.g. %s: %s)" % (
@@ -571,12 +579,20 @@ def run(ctx):
         if len(bad_ref) > len(caseinfo) // 10:
             raise lib.Inconclusive("generator produces operations the engine rejects: %s -> %s" % (by_id[bad_ref[0]]["ref"], info["refErr"]))
     rejected = [i for i, info in caseinfo.items() if info.get("learnErr") and (i + "/free") not in runs]
-    if rejected:
-        info = caseinfo[rejected[0]]
-        ctx.notes.append("%d generated operations were rejected by the engine before anything was written (e.g. %s: %s)" % (
-            len(rejected), by_id[rejected[0]]["query"], info["learnErr"][:200]))
-        if len(rejected) > max(3, len(caseinfo) // 20):
-            raise lib.Inconclusive("generator produces operations the engine rejects: %s -> %s" % (by_id[rejected[0]]["query"], info["learnErr"][:300]))
+    for i in sorted(rejected):
+        info = caseinfo[i]
+        if i in bad_ref:
+            continue  # the operation is not executable without @defer either: generator problem, noted above
+        # the engine answers the operation without @defer and with if:false, but returns an error instead of a stream
+        # for the @defer variant: nothing is delivered at all
+        c = by_id[i]
+        rejected_runs["Reconstructs|engine-error"] = rejected_runs.get("Reconstructs|engine-error", 0) + 1
+        if len(ctx.violations) < 40:
+            ctx.violation("Reconstructs|nofault|engine-error|nulls=%s|%s" % (",".join(c["nulls"]), c["query"]),
+                          "the engine executes the operation without @defer and with @defer(if:false) but fails with %r for the @defer variant "
+                          "(no frame is written): operation %s vars=%s nulls=%s" % (info["learnErr"][:300], c["query"], c["vars"] or "{}", c["nulls"]),
+                          {"case": c, "generator_state": st_by_id[i], "schedule": None, "engine_error": info["learnErr"],
+                           "reference": info.get("ref"), "ifFalse": info.get("ifFalse")})
     n_defer_plans = sum(1 for i in caseinfo.values() if i["isDefer"])
     if replay:
         for rid, row in sorted(runs.items()):
